@@ -114,7 +114,47 @@ let loop_main () =
                  ((match sy with T x -> 2 * int_of_n x | R x -> 2 * int_of_n x + 1), int_of_nat t)) es))) pg.pg_edges;
           Buffer.contents b)
 
+(* `tb` mode: one `lr` harness dump per line (grammar sections G / P and the token lists I)
+     -> TB n=<states of the TEXTBOOK canonical LR(1) collection> conflicts=<cells with two candidates>
+           tbcheck=<0|1> S=<0|1> [# O acc <tree> | rej <k> <state> | panic | fuel]*
+   The collection is built by the unverified canon_tb (sets of single-lookahead items: an item comes into being
+   only with a lookahead); tbcheck = lr1_textbook_check g (canon_tb g): the PROVED-SOUND certificate checker for
+   "the grammar is LR(1) in the textbook sense" (C02_lr1_textbook_check_sound); S = validS of that automaton
+   (what it accepts is then a sentence with that tree, C01_lr_sound).  The inputs are run on it when it has no
+   conflict. *)
+let rec pp_tree g b = function
+  | Leaf (a, i) -> Buffer.add_string b (Printf.sprintf "[%d %d]" (int_of_n a) (int_of_nat i))
+  | Node (p, kids) ->
+      Buffer.add_string b (Printf.sprintf "(%d" (int_of_n (lhs g p)));
+      List.iter (fun k -> Buffer.add_char b ' '; pp_tree g b k) kids;
+      Buffer.add_char b ')'
+
+let tb_main () =
+  iter_lines (fun line ->
+    if String.length line < 2 || String.sub line 0 2 <> "G " then "SKIP" else
+    let d = parse_dump line in
+    let g = grammar_of d in
+    match canon_tb g (nat_of_int 1500) with
+    | None -> "TB none"
+    | Some c ->
+        let a = of_dump c.c_dump in
+        let b = Buffer.create 256 in
+        Buffer.add_string b (Printf.sprintf "TB n=%d conflicts=%d tbcheck=%s S=%s" (int_of_n c.c_dump.d_nstates)
+          (int_of_nat c.c_conflicts) (b2s (lr1_textbook_check g a)) (b2s (validS g a)));
+        if int_of_nat c.c_conflicts = 0 then
+          List.iter (fun inp ->
+            let input = List.map n_of_int inp in
+            let fuel = nat_of_int (200 + 40 * (List.length inp + 1) * (List.length g.prods + 2)) in
+            Buffer.add_string b " # O ";
+            (match run g a fuel input with
+             | RAccept t -> Buffer.add_string b "acc "; pp_tree g b t
+             | RReject (k, st) -> Buffer.add_string b (Printf.sprintf "rej %d %d" (int_of_nat k) (int_of_n st))
+             | RPanic -> Buffer.add_string b "panic"
+             | ROutOfFuel -> Buffer.add_string b "fuel")) (List.rev d.inputs_rev);
+        Buffer.contents b)
+
 let () =
   if Array.length Sys.argv > 1 && Sys.argv.(1) = "lr1" then lr1_main ()
+  else if Array.length Sys.argv > 1 && Sys.argv.(1) = "tb" then tb_main ()
   else if Array.length Sys.argv > 1 && Sys.argv.(1) = "loop" then loop_main ()
   else weak_main ()
